@@ -574,7 +574,7 @@ def main():
     cfg = gen_config()
     res = Result(PID)
     T = tier()
-    NL, NS, HL = (4, 3, 3) if T == "quick" else (6, 5, 5)
+    NL, NS, HL = (4, 3, 5) if T == "quick" else (6, 5, 5)
     inst = []
     for op in LIST_OPS:
         for n in range(0, NL + 1):
